@@ -237,7 +237,8 @@ def evaluate(case: dict, faults: list, obs: dict, base: dict | None, stats: dict
                 if len(cover) >= 2 or interf:
                     stats["overlap_seen"] = 1
                 if cover:
-                    shape = word if interf else "no-window-ended-inside/queued-worker"
+                    # the worker adapter never consults the crashed flag, so window overlap is irrelevant here
+                    shape = "queued-worker"
                     out.append(
                         V(
                             "executes-while-crashed",
@@ -508,12 +509,12 @@ def evaluate(case: dict, faults: list, obs: dict, base: dict | None, stats: dict
                 elif waiters > 0 and head is not None and avail >= head - EPS:
                     # a waiter that fits is blocked although the resource is in its configured state
                     tcall = calls.get((rn, head_jid))
-                    inside = tcall is not None and any(w["s"] <= tcall <= w["e"] for w in W)
+                    inside = tcall is not None and any(tcall <= w["e"] < t for w in W)
                     out.append(
                         V(
                             "waiter-stranded-after-restore",
                             "ReduceCapacity",
-                            "waiter-queued-inside-window" if inside else "waiter-queued-outside-window",
+                            "waiting-across-window-end" if inside else "no-window-end-while-waiting",
                             ("strand", rn, t),
                             f"'{rn}' at t={t}ns (no window open): {waiters} waiter(s), head wants {head}, available {avail}",
                         )
@@ -1005,7 +1006,23 @@ def gen_mixed(rng: random.Random, tier: str) -> dict:
 # shrinking (best effort, keeps the case well-formed)
 
 
+def _known_keys() -> set:
+    try:
+        from hsverif import findings as kf
+
+        return {kf.key_of(e) for e in kf.for_property(PID) if e.get("status") == "known"}
+    except Exception:  # noqa: BLE001
+        return set()
+
+
 def shrink(case: dict, still_fails) -> dict:
+    # Effort saver only (never affects a verdict): a case whose violations all carry the key of a listed
+    # known finding is not worth minimising - the pinned witness of that finding is already minimal.
+    known = _known_keys()
+    if known:
+        keys = {v.key() for v in run(case).violations}
+        if keys and keys <= known:
+            return case
     cur = copy.deepcopy(case)
 
     def with_(key, items):
@@ -1017,7 +1034,7 @@ def shrink(case: dict, still_fails) -> dict:
         items = cur.get(key) or []
         if len(items) < 2:
             continue
-        small = ddmin(items, lambda cand, key=key: still_fails(with_(key, cand)), max_tests=60)
+        small = ddmin(items, lambda cand, key=key: still_fails(with_(key, cand)), max_tests=40)
         if still_fails(with_(key, small)):
             cur[key] = small
     # drop nodes nobody refers to
@@ -1039,6 +1056,6 @@ FAMILIES = {
     "mixed": Family("mixed", gen_mixed, run, shrink=shrink, case_timeout=60.0),
 }
 BUDGET = {
-    "quick": {"node": 500, "net": 400, "capacity": 400, "mixed": 300},
-    "thorough": {"node": 8000, "net": 6000, "capacity": 6000, "mixed": 5000},
+    "quick": {"node": 1000, "net": 700, "capacity": 1000, "mixed": 500},
+    "thorough": {"node": 30000, "net": 20000, "capacity": 30000, "mixed": 15000},
 }
